@@ -529,21 +529,28 @@ def directed(run, rng, which):
         run.do(('RmFile', (), b'ORPHAN.;1'))           # `inode is None` branch
         run.do(('RmLink', (), b'ORPHAN2.;1'))
         return 'catalog names'
-    if which == 5:      # a full root directory: the catalog record makes it grow; rm_eltorito does not shrink it
-        n = 0
-        while True:
-            nm = b'N' * 199 + bytes([65 + n]) + b';1'
-            run.do(('AddFile', (), nm, 10))
-            n += 1
-            if n == 8:
-                break
-        run.do(('AddFile', (), b'BOOT.;1', 10))
-        run.do(el((b'BOOT.;1',), cn=b'M' * 150 + b';1'))
+    if which == 5:      # a root directory that is EXACTLY full (68 + 8*236 + 92 = 2048): the catalog record makes
+        # it grow, rm_eltorito does not shrink it (full_root_ops / ab_add_rm_eltorito_inverse_refuted)
+        for n in range(8):
+            run.do(('AddFile', (), b'N' * 199 + bytes([65 + n]) + b';1', 10))
+        boot58 = b'B' * 56 + b';1'
+        run.do(('AddFile', (), boot58, 10))
+        run.do(el((boot58,)))
         run.do(('RmEltorito',))
-        run.do(el((b'BOOT.;1',), cn=b'M' * 150 + b';1'))
-        run.do(('RmLink', (), b'BOOT.;1'))
+        run.do(el((boot58,), cn=b'M' * 150 + b';1'))
+        run.do(('RmLink', (), boot58))
         run.do(('RmEltorito',))
         return 'directory growth around the catalog record'
+    if which == 7:      # the history ab_ex_ops of Proofs/AccountBootProofs.v (Example ab_ex_history)
+        Z, CAT2, D = b'Z.;1', b'CAT2.;1', b'D'
+        for op in [('AddFile', (), A, 5000), ('AddDir', (), D), ('AddFile', (D,), BOOT, 2049),
+                   el((D, BOOT), bit=True), el((A,), efi=True), el((A,), ls=70000),
+                   ('AddFile', (), Z, 100), el((Z,), ls=70000, bit=True),
+                   ('RmFile', (D,), BOOT), ('RmFile', (), CAT), ('RmLink', (D,), BOOT), ('RmDir', (D,)),
+                   ('AddCatLink', (), CAT2), ('RmLink', (), CAT), ('RmEltorito',), ('RmFile', (), A),
+                   ('AddFile', (), CAT, 10), ('AddFile', (), B, 0), el((B,))]:
+            run.do(op)
+        return 'example of AccountBootProofs.v'
     # which == 6: floppy media, load sizes, platform ids
     run.do(('AddFile', (), BOOT, 70000))
     run.do(('AddFile', (), A, 1))
@@ -568,7 +575,7 @@ def cases(seed, n):
         run = Runner()
         sel = k % 10
         if sel == 0:
-            label = directed(run, rng, (k // 10) % 7)
+            label = directed(run, rng, (k // 10) % 8)
         else:
             flavour = [0, 1, 1, 2, 3, 0, 1, 2, 3, 1][sel]
             nops = rng.choice([15, 25, 40, 60])
